@@ -16,7 +16,7 @@ fn check_numlook() -> u64 {
     let end = rest[q..].find("\",").expect("end of raw string");
     let pattern = &rest[q..q + end];
     let re = regex::Regex::new(pattern).expect("regex compiles");
-    let al: Vec<char> = "+-0179xobeE._aFg \n".chars().collect();
+    let al: Vec<char> = "+-0179xXobeE._aFg \n".chars().collect();
     let mut n = 0u64;
     let mut frontier = vec![String::new()];
     let mut all = vec![String::new()];
